@@ -26,7 +26,7 @@ Builder side (proofs in Lemmas/C16Basic, C16Inv, C16Push, C16New, C16Run):
   `NPInv` is established by `build_builder` and preserved by every successful push of every value;
 * `newDT`, `finish`, `extend`, `serializeWith`, `runRows`, `toMarrow` never unwind, for every field list and all rows.
 * the union row counters: `union_rows_capacity_is_error` / `union_row_ok_below_capacity` /
-  `serializeVariantPinned_overflow_panics` / `pushDefaultK_union_capacity_is_error` (repo fix fe68100).
+  `serializeVariantPinned_overflow_panics` / `pushDefaultK_union_capacity_is_error` (repo fix 217d612).
 The external conversions enter through `ExtNP ext` (they do not unwind); `codecExt_np` discharges it — without any
 hypothesis — for the C14 / C15 codec models, the timestamp string parser included (`timestampOfString_no_panic`).
 
@@ -135,7 +135,7 @@ theorem push_without_inv_panics :
     (push {} (.union "$" (.cons (.null "$.a" 0) ⟨"a", true, []⟩ .nil) [] [] []) (.unitVariant "E" 0 "a")).isPanic = true := by
   decide
 
-/-! ### the per-variant row counters of a union (`current_offset: Vec<i32>`, repo fix fe68100) -/
+/-! ### the per-variant row counters of a union (`current_offset: Vec<i32>`, repo fix 217d612) -/
 
 /-- **Beyond `i32::MAX` rows of one variant a union row is an ERROR**: for every state in which the counter of the
 variant cannot be incremented inside `i32`, `serialize_variant` returns an error value — not a panic (the pinned `+= 1`
